@@ -34,6 +34,9 @@ class _Rec:
         return getattr(self.real, k)
 
 
+_BASE_BY_KEY: dict = {}     # digest of the id pre-image per (digest size, class, origin, content, children): a pure function
+
+
 class Machine:
     NVARS = 6
 
@@ -53,6 +56,7 @@ class Machine:
         self.frame_fail: str | None = None
         self.before_observe = None   # hook run after the operation, before liveness is observed
         self.detached_toks: set[int] = set()
+        self.base_by_key: dict = {}
         self.lr_fail: tuple[str, str] | None = None   # (signature, message) of the live-registered oracle
 
     # ---- installation
@@ -93,6 +97,19 @@ class Machine:
 
         self.refs[t] = weakref.ref(node, dead)
         self.fresh.append((t, base))
+        # "same id every time": the digest of the id pre-image is a function of class, origin, comparable content and
+        # direct children (content id + origin) — evaluated on the harness' own canonical description
+        try:
+            key = (type(node).__name__, node.origin.fqn,
+                   tuple(sorted((f.name, zoo.stable_text(getattr(node, f.name)), str(type(getattr(node, f.name))))
+                                for f in zoo.prop_fields(type(node)) if f.compare)),
+                   tuple((nm, i, c.content_id, c.origin.fqn) for nm, coll, ns in zoo.kid_lists(node) for i, c in enumerate(ns)))
+            old = _BASE_BY_KEY.setdefault((self.digest_size,) + key, base)
+            if old != base and self.frame_fail is None:
+                self.frame_fail = (f"two {type(node).__name__} nodes with the same class, origin, comparable content and direct "
+                                   f"children got different id digests ({old} vs {base})")
+        except KeyError:
+            pass
 
     def tok(self, node) -> int:
         return self.tok_by_id[id(node)]
@@ -183,7 +200,11 @@ class Machine:
             return zoo.Picky(v=r.randint(0, 1), origin=o), "Picky"
         if k < 0.93:
             return zoo.PickyLate(v=r.randint(0, 1), origin=o), "PickyLate"
-        return zoo.Falsy(n=r.randint(0, 1), origin=o), "Falsy"
+        if k < 0.95:
+            return zoo.Falsy(n=r.randint(0, 1), origin=o), "Falsy"
+        # nested frozensets built in a random insertion order: equal contents must give equal base digests
+        inner = r.choice([[0, 8], [8, 0], [0, 8, 16], [16, 0, 8], [1]])
+        return zoo.PropZoo(nfs=frozenset([frozenset(inner)]), fs=frozenset(r.sample([0, 8, 16], 3)), origin=o), "PropZoo"
 
     def op_construct(self):
         r = self.rng
@@ -203,9 +224,18 @@ class Machine:
         elif k < 0.9:
             cs = [r.choice(live) for _ in range(r.randint(0, 3))]
             n, d, kids = zoo.Tup(tuple(cs)), "Tup", cs
-        elif k < 0.95:
+        elif k < (0.92 if self.profile == "copy" else 0.95):
             c = r.choice(live) if r.random() < 0.7 else None
             n, d, kids = zoo.Opt(c), "Opt", ([c] if c is not None else [])
+        elif k < (0.99 if self.profile == "copy" else 0.975):
+            cls = r.choice([zoo.MLeft, zoo.MBoth, zoo.MBoth])
+            a = r.choice(live) if r.random() < 0.8 else None
+            b = r.choice(live) if r.random() < 0.8 else None
+            if cls is zoo.MLeft:
+                n, d, kids = zoo.MLeft(lv=r.randint(0, 1), lk=a), "MLeft", ([a] if a is not None else [])
+            else:
+                n, d = zoo.MBoth(lv=r.randint(0, 1), lk=a, rv=r.randint(0, 1), rk=b), "MBoth"
+                kids = ([b] if b is not None else []) + ([a] if a is not None else [])     # declaration order: rk, lk
         else:
             # a child field typed as a union of unrelated node classes, holding a non-first member when possible
             cands = [x for x in live if type(x) is zoo.Bin] or [x for x in live if type(x) is zoo.Leaf]
